@@ -1,15 +1,20 @@
 /*UNIT
 {"props": ["C17"], "kind": "K5", "tier": "quick", "timeout": 900,
- "cbmc": ["--unwind", "8"], "extra_src": ["stubs/mem_sampled.c"],
- "bounded": "one sequence followed by the block delimiter (one real iteration of the transcription loop), literal/match/last-literal lengths <= 6; all field values, positions, dictionary size, window log, minMatch symbolic",
+ "cbmc": ["--unwind", "12"], "replace": ["ZSTD_storeSeq","ZSTD_storeLastLiterals"],
+ "bounded": "one sequence followed by the block delimiter (one real iteration of the transcription loop), literal/match/last-literal lengths <= 100; all field values, positions, dictionary size, window log, minMatch symbolic",
  "functions": ["ZSTD_copySequencesToSeqStoreExplicitBlockDelim","ZSTD_copySequencesToSeqStoreNoBlockDelim","ZSTD_validateSequence","ZSTD_finalizeOffBase","ZSTD_storeSeq"],
  "floor": 50,
+ "assumes": ["ZSTD_storeSeq / ZSTD_storeLastLiterals replaced by their contracts (contracts/seqstore.h); their preconditions (room in the sequence and literal buffers, literals inside the source) are obligations at the call sites"],
  "what": "validation rule taken from the property statement, checked on the real copiers (so the position actually passed to the validator is part of the claim): with validation on, a transcription that succeeds implies offset <= history available at the START of the match (within the window, or dictionary while reachable) and matchLength >= minimum"}
 */
 #include "verif.h"
+#include "lib/compress/zstd_compress_internal.h"
+#include "seqstore.h"
+#include "lib/common/error_private.c"
+#include "lib/common/zstd_common.c"
 #include "lib/compress/zstd_compress.c"
 
-#define SRCMAX 160
+#define SRCMAX 400
 void harness(void)
 {
     IN(vint, explicitMode);
@@ -19,19 +24,20 @@ void harness(void)
     static ZSTD_CCtx cctx_obj;              /* typed object: CBMC treats its fields separately */
     ZSTD_CCtx* const c = &cctx_obj;
     ZSTD_compressedBlockState_t prevB, nextB;
-    seqDef seqbuf[4];
-    BYTE litbuf[SRCMAX + WILDCOPY_OVERLENGTH];
-    BYTE src[SRCMAX];
+    seqDef* const seqbuf = (seqDef*)malloc(4 * sizeof(seqDef));
+    BYTE* const litbuf = (BYTE*)malloc(SRCMAX + WILDCOPY_OVERLENGTH);
+    BYTE* const src = (BYTE*)malloc(SRCMAX);
     ZSTD_Sequence in[2];
     ZSTD_sequencePosition sp;
     size_t blockSize, r;
     static BYTE dictAnchor[1];
-    ASSUME(ll <= 6 && ml <= 6 && lastLits <= 6);
+    ASSUME(ll <= 100 && ml <= 100 && lastLits <= 100);
+    ASSUME(seqbuf && litbuf && src);
     ASSUME(windowLog >= ZSTD_WINDOWLOG_MIN && windowLog <= ZSTD_WINDOWLOG_MAX);
     ASSUME(minMatch >= ZSTD_MINMATCH_MIN && minMatch <= ZSTD_MINMATCH_MAX);
     ASSUME(pos0 <= ((size_t)1 << 40));
     ASSUME(r0 >= 1 && r1 >= 1 && r2 >= 1);
-    ASSUME(off >= 1 && off <= 0xFFFFFFF0u);
+    ASSUME(off >= 1);
     ASSUME(repSearch == ZSTD_ps_enable || repSearch == ZSTD_ps_disable);
 
     c->cdict = NULL;
